@@ -208,8 +208,10 @@ CHECKS = {
              '(corollary of the C06 grammar theorem: no indentation gained per cycle - the pinned-tree defect F13); no '
              'encoded formatted value contains an empty line or a line boundary; a rendering whose paragraph renderings hold no '
              'empty line splits back into exactly those renderings (same number of paragraphs); line lists whose first line holds a word are stable; a license short name and text in decoded normal form '
-             'render to a value that parses back to exactly them. NOT proved: the composition into whole documents (render.parse.render = '
-             'render, same number of paragraphs, equal dictionary forms, from_dict(to_dict) at paragraph level): decided by '
+             'render to a value that parses back to exactly them; rebuilding a paragraph from its own dictionary form reproduces '
+             'that dictionary form whenever its field values are stable in the sense above (from_dict/to_dict theorem over '
+             'any number of fields). NOT proved: the composition into whole documents (render.parse.render = '
+             'render, equal dictionary forms after a render-parse cycle): decided by '
              'co-execution of the complete model (rendering included) with copyright.py on generated DEP-5 documents and '
              'on their renderings (second cycle), and by the executable statement on every generated document.',
         note=TRUST,
